@@ -14,12 +14,15 @@ import (
 // C11 — Stream framing delivers each TLV exactly once for any chunking of the stream
 // (narrow: cursor discipline only).
 func C11(c *core.Ctx) {
-	c.Explain = "Narrow claim. That every partition of every stream is re-framed correctly is a statement about run-time cursor arithmetic and is NOT decided. Decided structural necessary conditions — each one, when broken, loses, duplicates, splits, merges or corrupts blocks for some chunking: (R11.1) fw/face.readTlvStream: bytes are read into the buffer at the write cursor and the cursor advances by exactly the count Read returned; the T and L of the next block are parsed from the window [parse cursor, write cursor); the block size is len(T)+len(L)+L of the two numbers just parsed; the frame handed up is exactly buffer[parse cursor : parse cursor+size], only on the edge asserting that at least size bytes are pending, and the parse cursor then advances by that same size; compaction copies exactly the window [parse cursor, write cursor) to the front and resets the cursors to (write-parse, 0) together; (R11.2) std/engine/face.StreamFace.Run: a fresh buffer of len(T)+len(L)+L bytes per block, T written at 0, L at len(T), the value read with io.ReadFull into the rest, and the whole buffer handed up; (R11.3) every link service copies the frame before retaining anything of it (the transport's buffer is reused), and the stream transports pass the frame to the link service synchronously. Progress of the loop (no spinning) is decided under C04 R4.5."
+	c.Explain = "Narrow claim. That every partition of every stream is re-framed correctly is a statement about run-time cursor arithmetic and is NOT decided. Decided structural necessary conditions — each one, when broken, loses, duplicates, splits, merges or corrupts blocks for some chunking: (R11.1) fw/face.readTlvStream: bytes are read into the buffer at the write cursor and the cursor advances by exactly the count Read returned; the T and L of the next block are parsed from the window [parse cursor, write cursor); the block size is len(T)+len(L)+L of the two numbers just parsed; the frame handed up is exactly buffer[parse cursor : parse cursor+size], only on the edge asserting that at least size bytes are pending, and the parse cursor then advances by that same size; compaction copies exactly the window [parse cursor, write cursor) to the front and resets the cursors to (write-parse, 0) together; (R11.2) std/engine/face.StreamFace.Run: a fresh buffer of len(T)+len(L)+L bytes per block, T written at 0, L at len(T), the value read with io.ReadFull into the rest, and the whole buffer handed up; (R11.3) every link service copies the frame before retaining anything of it (the transport's buffer is reused), and the stream transports pass the frame to the link service synchronously. (R11.5 = C04 R4.5) the compaction — and the reset of the two cursors — happens for every number of pending bytes up to the rejection bound, zero included, and the buffer holds the largest accepted block."
 	c.RuleText = "instances: the Read call, the two ReadTLNum calls, the size expression, the onFrame call, the cursor phis and the compaction of readTlvStream; the buffer, the three offsets and the hand-up of StreamFace.Run; the frame parameter of every handleIncomingFrame implementation; every readTlvStream call site. Non-trivial = a value identity or a gate to decide."
 	p := c.P
 	c11Forwarder(c)
 	c11AppFace(c)
 	c11ReadBytesBeforeError(c)
+	c.Import(C04, "R11.5", "the receive loop of the stream transport stops making progress on a well-formed stream (buffer used up to its end, Read called with an empty slice): the blocks that follow are lost", 2, func(k string) bool {
+		return strings.HasPrefix(k, "R4.5:stream-compaction-covers-pending") || strings.HasPrefix(k, "R4.5:stream-buffer-holds-largest-block")
+	})
 
 	// ---- R11.3 frame ownership
 	ls := p.Named("fw/face", "LinkService")
@@ -126,6 +129,16 @@ func C11(c *core.Ctx) {
 				}
 				if okCb && !handed {
 					okCb, why = false, "the frame is never handed to the link service"
+				}
+				if okCb {
+					// "none lost": every path through the callback hands the block up — a
+					// callback that drops some blocks (by size, by state) loses well-formed
+					// blocks of the stream
+					fr := core.MustFollowDeep(cb, core.Point{Block: cb.Blocks[0], Idx: 0}, func(in ssa.Instruction) bool {
+						ci, ok := in.(ssa.CallInstruction)
+						return ok && ci.Common().IsInvoke() && ci.Common().Method.Name() == "handleIncomingFrame"
+					}, nil)
+					c.Decide(fr.OK, "R11.3", "every-block-handed-up:"+core.FuncName(fn), c.Pos(ci), "every path through the frame callback reaches linkService.handleIncomingFrame", core.FuncName(fn)+": the frame callback given to readTlvStream can return without handing the block to the link service (e.g. a block longer than the current MTU is dropped on receive): well-formed blocks no larger than the maximum packet size are lost")
 				}
 			}
 			c.Decide(okCb, "R11.3", "frame-handed-up-synchronously:"+core.FuncName(fn), c.Pos(ci), "the frame goes to linkService.handleIncomingFrame in the callback itself and nowhere else", core.FuncName(fn)+": "+why+": the slice points into the stream buffer, which is overwritten by the next read")
